@@ -34,7 +34,7 @@ func init() {
 			{ID: "C09-R4", Title: "untransformed pass-through between JSON and the characteristic API; member names", Decides: "what is set is what is read and vice versa", Floor: 8, Run: c09r4},
 			{ID: "C09-R5", Title: "contiguous chunking; bodies go through the chunked writer", Decides: "fidelity after HTTP chunking and encryption for responses of any size", Floor: 4, Run: c09r5},
 			{ID: "C09-R7", Title: "polarity of the handler's decisions (id parsing, found/missing, 207/204, subscribe/unsubscribe, chunk clamp)", Decides: "each id is answered with its own value or status; correct status codes", Floor: 10, Run: c09r7},
-			{ID: "C09-R6", Title: "handlers encode live state; request bodies reach the decoder unbounded", Decides: "what the application sets is what /accessories shows; large written values arrive", Floor: 4, Run: func(c *core.Ctx) { c09r6(c); frameAtATime(c) }},
+			{ID: "C09-R6", Title: "handlers encode live state of every accessory the application added; request bodies reach the decoder unbounded", Decides: "what the application sets is what /accessories shows; large written values arrive", Floor: 4, Run: func(c *core.Ctx) { c09r6(c); frameAtATime(c); autoIDFree(c) }},
 		},
 	})
 }
@@ -654,6 +654,8 @@ func c09r4(c *core.Ctx) {
 	charSetters(c)
 	charGateExact(c)
 	convertKeepsStrings(c)
+	adaptersPassNewValue(c)
+	signedFormatSignedConversion(c)
 	p := c.P
 	f := p.Func("hap/http", "(*Server).Characteristics")
 	if f == nil {
@@ -984,4 +986,120 @@ func convertKeepsStrings(c *core.Ctx) {
 	} else if bad == 0 {
 		c.OK("convert-keeps-strings@"+fname(f), f.Pos(), "%d string-valued return(s): the plain string form of the argument", n)
 	}
+}
+
+// adaptersPassNewValue: the typed OnValueRemoteUpdate / OnValueUpdate wrappers hand the application the new value — the third
+// (remote: conn, c, new, old) resp. second (local: c, new, old) argument of the change callback — not the old one.
+func adaptersPassNewValue(c *core.Ctx) {
+	p := c.P
+	n := 0
+	for _, wrapper := range []string{"Bool", "Int", "Float", "String", "Bytes"} {
+		for _, spec := range []struct {
+			method string
+			idx    int
+		}{{"OnValueRemoteUpdate", 2}, {"OnValueUpdate", 1}} {
+			g := p.Func("characteristic", "(*"+wrapper+")."+spec.method)
+			if g == nil {
+				continue
+			}
+			for _, cl := range g.AnonFuncs {
+				if len(cl.Params) <= spec.idx+1 {
+					continue
+				}
+				// the application's function is called with a value derived from …
+				core.Instrs(cl, func(i ssa.Instruction) {
+					call, ok := i.(*ssa.Call)
+					if !ok || call.Call.IsInvoke() || call.Call.StaticCallee() != nil {
+						return
+					}
+					if _, isBuiltin := call.Call.Value.(*ssa.Builtin); isBuiltin || len(call.Call.Args) != 1 {
+						return
+					}
+					n++
+					usesNew, usesOld := false, false
+					walkOperands(call.Call.Args[0], 10, func(v ssa.Value) {
+						switch v {
+						case ssa.Value(cl.Params[spec.idx]):
+							usesNew = true
+						case ssa.Value(cl.Params[spec.idx+1]):
+							usesOld = true
+						}
+					})
+					// a constant argument (the empty value handed over when a payload does not decode) uses neither
+					_, isConst := call.Call.Args[0].(*ssa.Const)
+					fromNew := !usesOld && (usesNew || isConst || !dependsOnParams(call.Call.Args[0], cl))
+					c.Check(fromNew, "adapter-passes-new-value:"+wrapper+"."+spec.method, posOf(i), "the application's callback receives the new value",
+						wrapper+"."+spec.method+" hands the application's callback something else than the new value of the change (the old value, for one): what a controller wrote is not what the remote-update callback receives")
+				})
+			}
+		}
+	}
+	if n == 0 {
+		c.Undecided("adapter-passes-new-value", token.NoPos, "no typed update adapters found")
+	}
+}
+
+func dependsOnParams(v ssa.Value, f *ssa.Function) bool {
+	dep := false
+	walkOperands(v, 10, func(x ssa.Value) {
+		if pa, ok := x.(*ssa.Parameter); ok && pa.Parent() == f {
+			dep = true
+		}
+	})
+	return dep
+}
+
+// signedFormatSignedConversion: the value of a signed integer format does not pass through an unsigned integer on its way from the
+// controller's JSON number (a float64) to the stored int. The conversion of a negative floating-point value to an unsigned integer
+// type is implementation-dependent in Go (spec, Conversions: "if the result type cannot represent the value the conversion
+// succeeds but the result value is implementation-dependent"): amd64 wraps around, and int(uint64(-30.0)) happens to be -30;
+// arm64 (FCVTZU) saturates, and the same expression is 0. On the platform most accessories run on, a controller that writes -30
+// to a tilt angle (int, -90..90) stores 0.
+func signedFormatSignedConversion(c *core.Ctx) {
+	p := c.P
+	f := p.Func("characteristic", "(*Characteristic).convert")
+	if f == nil {
+		c.Undecided("convert", token.NoPos, "not found")
+		return
+	}
+	consts := formatConstants(p)
+	v, ok := consts["FormatInt32"]
+	if !ok {
+		c.Undecided("signed-format-signed-conversion", f.Pos(), "FormatInt32 not found")
+		return
+	}
+	blk := formatSwitch(f)[v]
+	if blk == nil {
+		c.Undecided("signed-format-signed-conversion", f.Pos(), "convert has no case for the signed integer format")
+		return
+	}
+	isUnsigned := func(t types.Type) bool {
+		b, ok := t.Underlying().(*types.Basic)
+		return ok && b.Info()&types.IsUnsigned != 0
+	}
+	var via ssa.Value
+	for _, r := range returnsInCase(blk, nil) {
+		for _, x := range res(r) {
+			walkOperands(x, 8, func(o ssa.Value) {
+				switch y := o.(type) {
+				case *ssa.Call:
+					if sig := y.Call.Signature(); sig.Results().Len() == 1 && isUnsigned(sig.Results().At(0).Type()) {
+						via = y
+					}
+				case *ssa.Convert:
+					if isUnsigned(y.Type()) {
+						if b, ok := y.X.Type().Underlying().(*types.Basic); ok && b.Info()&types.IsFloat != 0 {
+							via = y
+						}
+					}
+				}
+			})
+		}
+	}
+	pos := f.Pos()
+	if via != nil {
+		pos = via.Pos()
+	}
+	c.Check(via == nil, "signed-format-signed-conversion@"+fname(f), pos, "the signed integer format is converted without an unsigned intermediate",
+		"the value of the signed integer format is converted through an unsigned integer: for a negative JSON number (a float64) that conversion is implementation-dependent in Go — amd64 wraps (and the result happens to be right), arm64 saturates to 0: a controller that writes -30 stores 0 on arm64")
 }
